@@ -394,6 +394,8 @@ def call_corridx(call):
     import tensorly as tl
     from tensorly.metrics.similarity import correlation_index
     f1 = [tl.tensor(a.copy()) for a in call["As"]]; f2 = [tl.tensor(b.copy()) for b in call["Bs"]]
+    if call.get("tol") is not None:
+        return C.call_impl(correlation_index, f1, f2, tol=call["tol"], method=call["method"])
     return C.call_impl(correlation_index, f1, f2, method=call["method"])
 
 
@@ -404,10 +406,22 @@ def ref_corridx_one(x1, x2):
     return float((np.abs(c.max(axis=1) - 1).sum() + np.abs(c.max(axis=0) - 1).sum()) / (2 * r))
 
 
-def ref_corridx(call):
+def corr_tol(call):
+    return 5e-16 if call.get("tol") is None else float(call["tol"])
+
+
+def ref_corridx(call, raw=False):
+    """definition incl. the threshold (every per-pair index below tol counts as 0); raw: the per-pair indices"""
+    tol = corr_tol(call)
     if call["method"] == "stacked":
-        return ref_corridx_one(np.concatenate(call["As"], 0), np.concatenate(call["Bs"], 0))
-    s = [ref_corridx_one(a, b) for a, b in zip(call["As"], call["Bs"])]
+        s = [ref_corridx_one(np.concatenate(call["As"], 0), np.concatenate(call["Bs"], 0))]
+    else:
+        s = [ref_corridx_one(a, b) for a, b in zip(call["As"], call["Bs"])]
+    if raw:
+        return s
+    s = [0.0 if x < tol else x for x in s]
+    if call["method"] == "stacked":
+        return s[0]
     return {"max_score": max(s), "min_score": min(s), "avg_score": sum(s) / len(s)}[call["method"]]
 
 
@@ -423,6 +437,8 @@ def pred_corridx(call, out):
         fails.append(("C20_corrindex_range", f"correlation index {v!r} outside [0, 1]"))
     if call.get("equivalent") and not (abs(v) <= 1e-12):
         fails.append(("C20_corrindex_zero", f"equivalent factor sets ({call['equivalent']}) have correlation index {v!r} != 0"))
+    if any(corr_tol(call) > 1e-8 and abs(x - corr_tol(call)) < 1e-7 for x in ref_corridx(call, raw=True)):
+        return fails      # threshold decision ambiguous under rounding
     ref = ref_corridx(call)
     if abs(ref - v) > 1e-9:
         fails.append(("C20_corrindex_def", f"correlation index {v!r} differs from its definition {ref!r}"))
@@ -440,7 +456,7 @@ def emit_corridx(cid, call, out):
     else:
         n1 = [col_norms(a) for a in As]; n2 = [col_norms(b) for b in Bs]
     impl = f"(Ok {C.q(float(v))})" if st == "ok" else "Err"
-    return (f"({cid}%nat, KCorrIdx {METH_LIT[call['method']]} {C.q(5e-16)} {mats_lit(As)} {mats_lit(Bs)} "
+    return (f"({cid}%nat, KCorrIdx {METH_LIT[call['method']]} {C.q(corr_tol(call))} {mats_lit(As)} {mats_lit(Bs)} "
             f"{qlists_lit(n1)} {qlists_lit(n2)} {impl})")
 
 
@@ -454,19 +470,20 @@ def gen_corridx(tier, rng):
             nm = rng.choice([1, 2, 3]); hs = [rng.randint(1, 5) for _ in range(nm)]
             A = factor_set(rng, r, hs)
             mode = k % 3
+            tolv = [None, None, 0.0, 0.05, 0.3, 1.0][(k // 3) % 6]
             if mode == 0:
-                calls.append(dict(As=A, Bs=factor_set(rng, r, hs), method=meth, stream="random"))
+                calls.append(dict(As=A, Bs=factor_set(rng, r, hs), method=meth, tol=tolv, stream="random"))
             elif mode == 1:
                 sigma = list(range(r)); rng.shuffle(sigma)
                 kind = "common" if meth == "stacked" else "signed"
                 B = equivalent_copy(A, sigma, scalings(rng, r, nm, kind))
-                calls.append(dict(As=A, Bs=B, method=meth, equivalent=kind, sigma=sigma, stream="equivalent"))
+                calls.append(dict(As=A, Bs=B, method=meth, equivalent=kind, sigma=sigma, tol=tolv, stream="equivalent"))
             else:
                 sigma = list(range(r)); rng.shuffle(sigma)
                 B = equivalent_copy(A, sigma, scalings(rng, r, nm, "common"))
                 B = [b + np.array([[rng.randint(-2, 2) / 16 for _ in range(r)] for _ in range(b.shape[0])]) for b in B]
                 if all(np.all(np.abs(b).sum(axis=0) > 0) for b in B):
-                    calls.append(dict(As=A, Bs=B, method=meth, stream="perturbed"))
+                    calls.append(dict(As=A, Bs=B, method=meth, tol=tolv, stream="perturbed"))
     for k in range(12 if tier == "quick" else 40):
         r = rng.randint(1, 3); hs = [rng.randint(1, 3) for _ in range(2)]
         A = factor_set(rng, r, hs); B = factor_set(rng, r, hs)
@@ -523,9 +540,10 @@ def emit_leverage(cid, call, out):
     st, v = out
     M = call["M"]
     U, S, Vt = tl.svd(tl.tensor(M.copy()), full_matrices=False)
+    low = M.dtype != np.float64          # lower precision: cast to float64 + renormalisation branch, looser tape tolerance
     impl = f"(Ok {C.q_list([float(x) for x in np.asarray(v).ravel()])})" if st == "ok" else "Err"
-    return (f"({cid}%nat, KLev {mat_lit(M)} {mat_lit(np.asarray(U))} {mat_lit(np.asarray(Vt))} "
-            f"{C.q_list([float(x) for x in np.asarray(S).ravel()])} {C.q(EPS64)} {impl})")
+    return (f"({cid}%nat, KLev {C.boolc(low)} {C.q(2e-5 if low else 1e-9)} {mat_lit(M)} {mat_lit(np.asarray(U))} {mat_lit(np.asarray(Vt))} "
+            f"{C.q_list([float(x) for x in np.asarray(S).ravel()])} {C.q(float(np.finfo(M.dtype).eps))} {impl})")
 
 
 def gen_leverage(tier, rng):
@@ -646,7 +664,9 @@ def emit_reg(cid, call, out):
     redlen = yt.size if ax is None else (yt.shape[ax] if ax < yt.ndim else 1)
     exact = which in (0, 3, 4) and is_pow2(redlen)
     impl = f"(Ok {tensor_lit(np.asarray(v))})" if st == "ok" else "Err"
-    return (f"({cid}%nat, KReg {which}%nat {C.opt(ax, C.nat)} {tensor_lit(yt)} {tensor_lit(yp)} {C.boolc(exact)} {impl})")
+    st_src, val_src = SRC_FORMS.get(call["fn"], ("unsupported", "not translated"))
+    src = f"(Some {val_src})" if st_src == "ok" and (SRC_EVERY <= 1 or cid % SRC_EVERY == 0) else "None"
+    return (f"({cid}%nat, KReg {which}%nat {C.opt(ax, C.nat)} {tensor_lit(yt)} {tensor_lit(yp)} {C.boolc(exact)} {impl} {src})")
 
 
 def gen_reg(tier, rng):
@@ -667,6 +687,241 @@ def gen_reg(tier, rng):
                         yt.flat[0] = 1.0
                     calls.append(dict(fn=name, yt=yt, yp=yp, axis=ax, stream=name))
     return calls
+
+
+# ----------------------------------------------------------------------------- source tie (regression.py -> rexp)
+# ast -> term of Corr.C20.rexp: symbolic execution of the straight-line code of tensorly/metrics/regression.py in the CURRENT
+# working tree (with the one `if axis is not None:` keepdims-reshape idiom).  Anything else raises Unsupported, which is
+# reported in the evidence and never a verdict.
+import ast as _ast_mod
+ast = _ast_mod
+import os
+
+
+class Unsupported(Exception):
+    pass
+
+
+class KeepShape:      # list(T.shape(x)) with shape[axis] = 1 applied or not
+    def __init__(self, one=False):
+        self.one = one
+
+
+def _is_axis(node):
+    return isinstance(node, ast.Name) and node.id == "axis"
+
+
+def _call_name(node):
+    f = node.func
+    if isinstance(f, ast.Attribute) and isinstance(f.value, ast.Name) and f.value.id in ("T", "tl"):
+        return "T." + f.attr
+    if isinstance(f, ast.Name):
+        return f.id
+    raise Unsupported("call " + ast.dump(f)[:60])
+
+
+class Translator:
+    def __init__(self, source):
+        self.funcs = {n.name: n for n in ast.parse(source).body if isinstance(n, ast.FunctionDef)}
+
+    def axis_arg(self, call, pos):
+        """the reduction must be over `axis` (keyword or positional), or over everything when the function has no axis"""
+        for kw in call.keywords:
+            if kw.arg == "axis":
+                if _is_axis(kw.value):
+                    return True
+                raise Unsupported("axis=" + ast.dump(kw.value)[:40])
+            raise Unsupported("keyword " + str(kw.arg))
+        if len(call.args) > pos:
+            if _is_axis(call.args[pos]):
+                return True
+            raise Unsupported("positional axis " + ast.dump(call.args[pos])[:40])
+        return False
+
+    def expr(self, node, env, has_axis):
+        if isinstance(node, ast.Name):
+            if node.id in env:
+                return env[node.id]
+            raise Unsupported("name " + node.id)
+        if isinstance(node, ast.Constant):
+            if node.value == 1:
+                return ("ROne",)
+            raise Unsupported("constant " + repr(node.value))
+        if isinstance(node, ast.BinOp):
+            if isinstance(node.op, ast.Pow):
+                if isinstance(node.right, ast.Constant) and node.right.value in (2, 2.0):
+                    base = node.left
+                    if isinstance(base, ast.Call) and _call_name(base) == "T.norm" and len(base.args) == 1 and not base.keywords:
+                        return ("RNormSq", self.expr(base.args[0], env, has_axis))
+                    return ("RSq", self.expr(base, env, has_axis))
+                raise Unsupported("power")
+            op = {ast.Sub: "RSub", ast.Mult: "RMul", ast.Div: "RDiv"}.get(type(node.op))
+            if op is None:
+                raise Unsupported("operator " + type(node.op).__name__)
+            return (op, self.expr(node.left, env, has_axis), self.expr(node.right, env, has_axis))
+        if isinstance(node, ast.Call):
+            name = _call_name(node)
+            if name in ("T.mean", "T.sum"):
+                used = self.axis_arg(node, 1) and has_axis      # `axis` denotes the caller's axis only if it was forwarded
+                base = "RMean" if name == "T.mean" else "RSum"
+                return (base if used else base + "All", self.expr(node.args[0], env, has_axis))
+            if name == "T.sqrt":
+                return ("SQRT", self.expr(node.args[0], env, has_axis))
+            if name == "T.reshape":
+                shp = node.args[1]
+                if isinstance(shp, ast.Name) and isinstance(env.get(shp.id), KeepShape) and env[shp.id].one:
+                    inner = self.expr(node.args[0], env, has_axis)
+                    if inner[0] not in ("RMean", "RSum") or not has_axis:
+                        raise Unsupported("reshape of a non-reduced tensor")
+                    return ("RKeep", inner)
+                raise Unsupported("reshape")
+            if name in self.funcs:
+                return self.inline(name, node, env, has_axis)
+            raise Unsupported("call " + name)
+        raise Unsupported(type(node).__name__)
+
+    def inline(self, name, call, env, has_axis):
+        fn = self.funcs[name]
+        params = [a.arg for a in fn.args.args]
+        callee_axis = "axis" in params
+        tparams = [p for p in params if p != "axis"]
+        if len(call.args) < len(tparams):
+            raise Unsupported("call arity")
+        new_env = {p: self.expr(a, env, has_axis) for p, a in zip(tparams, call.args)}
+        rest = call.args[len(tparams):]
+        passed = any(kw.arg == "axis" and _is_axis(kw.value) for kw in call.keywords) or (len(rest) == 1 and _is_axis(rest[0]))
+        if any(kw.arg != "axis" for kw in call.keywords) or len(rest) > 1:
+            raise Unsupported("call arguments")
+        return self.body(fn, new_env, callee_axis and passed and has_axis)
+
+    def body(self, fn, env, has_axis):
+        env = dict(env)
+        stmts = [s for s in fn.body if not (isinstance(s, ast.Expr) and isinstance(s.value, ast.Constant))]   # docstring
+        for st in stmts:
+            if isinstance(st, ast.Return):
+                return self.expr(st.value, env, has_axis)
+            self.stmt(st, env, has_axis)
+        raise Unsupported("no return")
+
+    def stmt(self, st, env, has_axis):
+        if isinstance(st, ast.Assign) and len(st.targets) == 1:
+            tgt = st.targets[0]
+            if isinstance(tgt, ast.Name):
+                v = st.value
+                if (isinstance(v, ast.Call) and isinstance(v.func, ast.Name) and v.func.id == "list" and len(v.args) == 1
+                        and isinstance(v.args[0], ast.Call) and _call_name(v.args[0]) == "T.shape"):
+                    env[tgt.id] = KeepShape(False)
+                else:
+                    env[tgt.id] = self.expr(v, env, has_axis)
+                return
+            if (isinstance(tgt, ast.Subscript) and isinstance(tgt.value, ast.Name) and isinstance(env.get(tgt.value.id), KeepShape)
+                    and _is_axis(tgt.slice) and isinstance(st.value, ast.Constant) and st.value.value == 1):
+                env[tgt.value.id] = KeepShape(True)
+                return
+            raise Unsupported("assignment")
+        if isinstance(st, ast.If):
+            t = st.test
+            if (isinstance(t, ast.Compare) and _is_axis(t.left) and len(t.ops) == 1 and isinstance(t.ops[0], ast.IsNot)
+                    and isinstance(t.comparators[0], ast.Constant) and t.comparators[0].value is None and not st.orelse):
+                # the block may only re-bind names to their keepdims reshape: with axis=None broadcasting a 0-d mean is the
+                # same thing, which is what RKeep denotes
+                for s2 in st.body:
+                    self.stmt(s2, env, has_axis)
+                return
+            raise Unsupported("if")
+        raise Unsupported(type(st).__name__)
+
+    def function(self, name):
+        fn = self.funcs[name]
+        params = [a.arg for a in fn.args.args]
+        targs = [p for p in params if p != "axis"]
+        env = {p: ("RArg", k) for k, p in enumerate(targs)}
+        e = self.body(fn, env, "axis" in params)
+        return self.form(e)
+
+    def form(self, e):
+        def has_sqrt(x):
+            return isinstance(x, tuple) and (x[0] == "SQRT" or any(has_sqrt(y) for y in x[1:]))
+        if e[0] == "SQRT" and not has_sqrt(e[1]):
+            return ("RSqrt", e[1])
+        if e[0] == "RDiv" and e[2][0] == "SQRT" and not has_sqrt(e[1]) and not has_sqrt(e[2][1]):
+            return ("RRatio", e[1], e[2][1])
+        if not has_sqrt(e):
+            return ("RPlain", e)
+        raise Unsupported("sqrt in an unexpected position")
+
+
+def lit(e):
+    if e[0] == "RArg":
+        return f"(RArg {e[1]}%nat)"
+    if e[0] == "ROne":
+        return "ROne"
+    return "(" + e[0] + " " + " ".join(lit(x) for x in e[1:]) + ")"
+
+
+def translate_all(repo, names):
+    src = open(os.path.join(repo, "tensorly", "metrics", "regression.py")).read()
+    tr = Translator(src)
+    out = {}
+    for n in names:
+        try:
+            out[n] = ("ok", lit(tr.function(n)))
+        except Unsupported as ex:
+            out[n] = ("unsupported", str(ex))
+        except Exception as ex:          # never a verdict
+            out[n] = ("unsupported", f"{type(ex).__name__}: {ex}")
+    return out
+
+
+
+SRC_EVERY = 1       # the sampled source comparison runs on every SRC_EVERY-th regression case (thorough: 3)
+SRC_FORMS = {}      # function name -> ("ok", rform literal) | ("unsupported", reason); filled by run()
+
+TIE_GOALS = {
+    "MSE": "forall ax yt yp, rev ax [yt; yp] E = MSE Qops ax yt yp",
+    "RMSE": "forall ax yt yp, rev ax [yt; yp] E = MSE Qops ax yt yp",
+    "R2_score": "forall ax yt yp, rev ax [yt; yp] E = mk [] [R2_score Qops yt yp]",
+    "covariance": "forall ax yt yp, rev ax [yt; yp] E = covariance Qops ax yt yp",
+    "variance": "forall ax y, rev ax [y] E = variance Qops ax y",
+    "correlation": "forall ax yt yp, rev ax [yt; yp] N = fst (corr_parts Qops ax yt yp) /\\ rev ax [yt; yp] D = snd (corr_parts Qops ax yt yp)",
+    "reflective_correlation_coefficient": "forall ax yt yp, rev ax [yt; yp] N = fst (refl_parts Qops ax yt yp) /\\ rev ax [yt; yp] D = snd (refl_parts Qops ax yt yp)",
+    "standard_deviation": "forall ax y, rev ax [y] E = variance Qops ax y",
+}
+
+
+def prove_source_tie(forms):
+    """for every translated function try to PROVE (by conversion, all inputs) that the translated source equals the
+    hand-written model; -> {name: 'proved-by-conversion' | 'not-convertible (sampled comparison only)' | 'unsupported: ..'}"""
+    import subprocess, shutil
+    d = os.path.join(C.BUILD, "cases", "C20", f"tie_{os.getpid()}")
+    shutil.rmtree(d, ignore_errors=True); os.makedirs(d, exist_ok=True)
+    procs, res = [], {}
+    for name, (st, val) in forms.items():
+        if st != "ok":
+            res[name] = "unsupported: " + val; continue
+        inner = val[1:-1].strip()                      # "RPlain e" | "RSqrt e" | "RRatio n d"
+        head, rest = inner.split(" ", 1)
+        defs = ""
+        if head == "RRatio":
+            depth, cut = 0, None
+            for i, ch in enumerate(rest):
+                depth += ch == "("; depth -= ch == ")"
+                if depth == 0 and ch == ")":
+                    cut = i + 1; break
+            defs = f"Definition N : rexp := {rest[:cut]}.\nDefinition D : rexp := {rest[cut:].strip()}.\n"
+        else:
+            defs = f"Definition E : rexp := {rest}.\n"
+        fn = os.path.join(d, f"Tie_{name}.v")
+        with open(fn, "w") as f:
+            f.write(HEADER.replace("Base.Tensor", "Base.Tensor Base.Ops") + "\n" + defs +
+                    f"Lemma tie : {TIE_GOALS[name]}.\nProof. intros. try split; reflexivity. Qed.\n")
+        procs.append((name, subprocess.Popen(["timeout", "300", "coqc", "-w", "none", "-R", os.path.join(C.COQ, "theories"), "TLV", fn],
+                                             stdout=subprocess.PIPE, stderr=subprocess.PIPE, text=True, cwd=d)))
+    for name, pr in procs:
+        out, err = pr.communicate()
+        res[name] = "proved-by-conversion (all inputs)" if pr.returncode == 0 else "not-convertible (sampled comparison only)"
+    shutil.rmtree(d, ignore_errors=True)
+    return res
 
 
 # ----------------------------------------------------------------------------- driver
@@ -755,6 +1010,11 @@ def run(chk):
     tier = chk.tier
     cases, meta = [], []
     skipped = 0
+    global SRC_EVERY
+    SRC_EVERY = 1 if tier == "quick" else 3
+    SRC_FORMS.clear(); SRC_FORMS.update(translate_all(C.REPO, REG))
+    chk.cov["source_tie_regression"] = prove_source_tie(SRC_FORMS)
+    lap("source_tie")
     todo = load_corpus()
     for sname, (ep, gen, call_fn, pred, emit) in STREAMS.items():
         todo += [(sname, c) for c in gen(tier, rng)]
@@ -774,8 +1034,12 @@ def run(chk):
             continue
         if out[0] == "ok" and sname in ("regression",) and not finite(out[1]):
             skipped += 1; chk.hist("skipped", "non-finite (constant slice)"); continue
-        if sname == "leverage_score_dist" and call["M"].dtype != np.float64:
-            continue    # the float32 renormalisation branch is judged by the predicate only
+        if sname == "correlation_index" and out[0] == "ok" and not call.get("malformed"):
+            try:
+                if any(corr_tol(call) > 1e-8 and abs(x - corr_tol(call)) < 1e-7 for x in ref_corridx(call, raw=True)):
+                    skipped += 1; chk.hist("skipped", "correlation index within 1e-7 of tol"); continue
+            except Exception:
+                pass
         cid = len(cases)
         try:
             lit = emit(cid, call, out)
@@ -797,7 +1061,8 @@ def run(chk):
     chk.cov["rule"] = ("congruence_coefficient / cp_permute_factors / correlation_index on dyadic factor sets of rank 1-5 (thorough: 6), 1-3 modes, "
                        "heights 1-6: independent sets, EVERY column permutation of rank <= 4 (thorough <= 5) with sampled non-zero (signed) "
                        "scalings, tied, perturbed and malformed inputs, single matrices and lists, absolute_value on/off/default, all four "
-                       "correlation-index methods; leverage scores of random and exactly rank-deficient matrices; the eight regression "
+                       "correlation-index methods with default and custom tol; cp_permute_factors on single tensors and lists of two different "
+                       "tensors; leverage scores of random and exactly rank-deficient matrices (float64 and float32); the eight regression "
                        "metrics over every axis (+None, +1 invalid) of a grid of shapes.  distinct key = (entry point, shapes, options, "
                        "stream, permutation); non-trivial = rank >= 2 resp. more than one entry")
     for b in broken:
@@ -810,6 +1075,7 @@ def run(chk):
                        "the r! brute force in Coq runs on the exact congruence matrix rounded down to multiples of 2^-80 (scores move by < 2^-80)",
                        "column norms, the assignment and the thin SVD are oracle answers whose contracts are re-checked in Coq on every case",
                        "factor matrices have no exactly-zero column (the code rejects them) and at least one row and column"]
+    chk.trusted += ["ast translator regression.py -> Corr.C20.rexp (its output is compared with the hand-written model by conversion and on samples)"]
     chk.trusted += ["oracles: numpy sqrt (column norms), scipy.optimize.linear_sum_assignment, numpy.linalg.svd -- answers checked per case "
                     "(norm^2 = sum of squares to 1e-11; matching value = brute-force optimum over all r! matchings to 1e-9; U^T U = I, U S V^T = M to 1e-9)"]
     return chk.finish({})
